@@ -61,6 +61,19 @@ static void gates(World &w, int reps, bool snapshot_keys_every) {
         const GateSpec &gs = GATES[g];
         int v[3] = {(int) rng.below(2), (int) rng.below(2), (int) rng.below(2)};
         for (int i = 0; i < 3; i++) bootsSymEncrypt(in + i, v[i], w.sk);
+        // every other repetition: inputs whose combination inside the gate sits exactly on rounding ties of the modulus switch
+        // (mask words of the 2nd and 3rd operand multiples of the interval width 2^32/2N, those of the 1st operand half-way, or
+        // a quarter-way for the gates that double the sum); the phases are put back in place with the secret key
+        if (rep & 1) {
+            const uint32_t width = (uint32_t) (4294967296.0 / (2 * w.N)), lowmask = width - 1;
+            for (int i = 0; i < n; i++) {
+                in[1].a[i] = (int32_t) ((uint32_t) in[1].a[i] & ~lowmask); in[2].a[i] = (int32_t) ((uint32_t) in[2].a[i] & ~lowmask);
+                in[0].a[i] = (int32_t) (((uint32_t) in[0].a[i] & ~lowmask) | ((i & 1) ? width / 4 : width / 2));
+            }
+            in[1].b = (int32_t) ((uint32_t) in[1].b & ~lowmask); in[0].b = (int32_t) (((uint32_t) in[0].b & ~lowmask) | width / 2);
+            for (int i = 0; i < 3; i++) inject_phase(in + i, v[i], rng.range(-(1 << 24), 1 << 24), w.sk);
+            out.cell(w.cfg + ":inputs-on-exact-rounding-ties-of-the-modulus-switch:" + gs.name);
+        }
         CtSnap s0 = snap_ct(in, n), s1 = snap_ct(in + 1, n), s2 = snap_ct(in + 2, n);
         std::string g0 = gen_state();
         VH_OP("boots%s:%s:disjoint", gs.name, w.cfg.c_str());
